@@ -97,7 +97,8 @@ class C20(S4UCheck):
             elif model == 'LV08f':
                 latf, bwf = r.choice([1.0, 2.5, 10.4]), r.choice([1.0, 0.92, 0.5])
                 cfg += ['network/model:LV08', 'network/latency-factor:%r' % latf, 'network/bandwidth-factor:%r' % bwf]
-            s = r.choice([1.0, 100.0, 1e4, 65535.0, 65537.0, 1e6, 1e8, 0.0])
+            # (sizes beyond 2^31 and 2^32 bytes too: message sizes are doubles in the API)
+            s = r.choice([1.0, 100.0, 1e4, 65535.0, 65537.0, 1e6, 1e8, 0.0, 2147483649.0, 3e9, 4294967297.0, 1e11])
             if model == 'SMPI':
                 ls = '65536:%r;1000:%r;0:%r' % (r.choice([2.0, 11.6]), r.choice([1.5, 3.0]), r.choice([1.0, 2.01]))
                 bs = '65536:%r;1000:%r;0:%r' % (r.choice([0.94, 1.0]), r.choice([0.69, 0.5]), r.choice([0.81, 1.0]))
